@@ -239,7 +239,7 @@ pub fn run(ctx: &Ctx) -> (Summary, String) {
 /// under the estimator's and perturbed in-range parameters; `verify_model_written` then feeds what
 /// the model wrote to the CURRENT reader
 pub fn model_writer_requests(ctx: &Ctx) -> Vec<(String, String)> {
-    let n = ctx.n(800, 4000);
+    let n = ctx.n(800, 16000);
     let mut out = Vec::new();
     for i in 0..n {
         let c = streams::case(ctx.seed ^ 0xC04, i, 6000, true);
